@@ -197,6 +197,10 @@ impl Iterator for TaikoGradualDifficulty {
     }
 
     fn nth(&mut self, n: usize) -> Option<Self::Item> {
+        // As per `Iterator::nth`, if fewer than `n + 1` items remain, all of
+        // them are consumed and `None` is returned.
+        let in_bounds = n < self.len();
+
         let mut take = cmp::min(n, self.len().saturating_sub(1));
 
         // The first two notes have no difficulty object but might add to combo
@@ -258,7 +262,7 @@ impl Iterator for TaikoGradualDifficulty {
             }
         }
 
-        self.next()
+        self.next().filter(|_| in_bounds)
     }
 }
 
